@@ -816,6 +816,67 @@ def state_save_restore(chk):
     chk.floor('state-saving hashes', n, 5)
 
 
+def aesctr_drbg_seed_padding(chk):
+    """AESCTR_DRBG update: the seed is absorbed in 16-byte blocks, each placed in the second half of the 32-byte key H || m; "the last
+    block is padded with zeros" (comment in the source, and the only reading under which equal seeds give equal streams regardless of
+    what was absorbed before).  Path rule: after a variable-length copy of seed bytes into the key block, every path to the key
+    installation passes through a zero fill of that block's remainder - not a fill done once before the loop."""
+    R = 'aesctr-drbg-seed-block-padded'
+    src, fn = 'src/rand/aesctr_drbg.c', 'br_aesctr_drbg_update'
+    u = build.load_unit(src)
+    F = next((irf.Func(u, f) for f in u['functions'] if f['name'] == fn and f.get('blocks')), None)
+    if F is None:
+        raise AnalysisBroken('%s vanished' % fn)
+    copies = []
+    for c in F.calls():
+        if (c.get('callee') or '').startswith('llvm.memcpy') and c['ops'][2]['k'] != 'c':
+            db, do = F.addr_of(c['ops'][0])
+            sb, _ = F.addr_of(c['ops'][1])
+            if db['k'] == 'i' and F.insts[db['v']]['op'] == 'alloca' and do == 16 and (sb == {'k': 'a', 'v': 1} or (sb['k'] == 'i' and F.insts[sb['v']]['op'] == 'phi')):
+                copies.append((c, db))
+    if not copies:
+        raise AnalysisBroken('%s: the copy of seed bytes into the key block is not identified' % fn)
+    def root(o):
+        for _ in range(12):
+            if o['k'] != 'i':
+                return o
+            i_ = F.insts[o['v']]
+            if i_['op'] in ('getelementptr', 'bitcast'):
+                o = i_['ops'][0]
+            else:
+                return o
+        return o
+    for c, db in copies:
+        inst = '%s: a partial seed block is zero-padded before the key is installed' % fn
+        bad = None
+        seen = set()
+        st = [(F.block_of[c['id']], F.order[c['id']])]
+        while st and bad is None:
+            b, after = st.pop()
+            blk = next(x for x in F.blocks if x['id'] == b)
+            stop = False
+            for i in blk['insts']:
+                if F.order[i['id']] <= after:
+                    continue
+                if i['op'] == 'call' and (i.get('callee') or '').startswith('llvm.memset') and root(i['ops'][0]) == db and i['ops'][1]['k'] == 'c' and i['ops'][1]['v'] == 0:
+                    stop = True
+                    break
+                if i['op'] == 'call' and i.get('callee') is None and any(o['k'] == 'i' and F.addr_of(o) == (db, 0) for o in i['ops']):
+                    bad = i
+                    break
+            if stop or bad:
+                continue
+            for sb_ in F.succ[b]:
+                if sb_ not in seen:
+                    seen.add(sb_)
+                    st.append((sb_, -1))
+        if bad is None:
+            chk.ok(R, inst, F.where(c))
+        else:
+            chk.violation(R, inst, F.where(c), 'the key block reaches the key installation at line %s without a zero fill after the copy: bytes of the previous block '
+                          'pad a short last seed block' % bad.get('line'), key=R)
+
+
 def run(tier):
     chk = report.Check('C13', tier,
                        'Constant tables and class descriptors of the hash functions compared with values generated from the standards '
@@ -964,6 +1025,7 @@ def run(tier):
     shake_rules(chk)
     hkdf_expand(chk)
     state_save_restore(chk)
+    aesctr_drbg_seed_padding(chk)
     chk.floor('tables', sum(1 for o in chk.obls if o['rule'] == 'hash-constants'), 15)
     from .. import lints
     lints.length_is_boolean(chk, ['src/hash/', 'src/mac/', 'src/kdf/', 'src/rand/'])
